@@ -35,14 +35,14 @@ def run(tier, seed, verdict):
     from . import c10, c16, dimlink, c05
     extra = [
         ("NixMeta", runner.ExportRun("MC_NixMeta", "MC_C10_quick.cfg", seed, "harness.c10", accept=refused,
-                                     opts={"names": ["n1", "n2"], "attrs": []}, stride=6 if quick else 1)),
+                                     opts={"names": ["n1", "n2"], "attrs": []}, stride=12 if quick else 1)),
         ("NixFrame", runner.ExportRun("MC_NixFrame", "MC_C16_quick.cfg", seed, "harness.c16", accept=refused,
-                                      stride=3 if quick else 1, label=lambda tx: c16.klass(tx["act"]) + ":" + tx["act"]["out"])),
+                                      stride=6 if quick else 1, label=lambda tx: c16.klass(tx["act"]) + ":" + tx["act"]["out"])),
         ("NixDimLink", runner.ExportRun("MC_NixDimLink", "MC_C05_dims_quick.cfg", seed, "harness.dimlink", accept=refused,
-                                        opts={"ranks": c05.RANKS}, stride=2 if quick else 1,
+                                        opts={"ranks": c05.RANKS}, stride=4 if quick else 1,
                                         label=lambda tx: dimlink.klass(tx["act"]) + ":" + tx["act"]["out"])),
         ("NixArray", runner.ExportRun("MC_NixArray", "MC_C01_quick.cfg", seed, "harness.arrayrefused", accept=refused,
-                                      stride=1)),
+                                      stride=2 if quick else 1)),
     ]
     cov["other_modules"] = {}
     for name, r in extra:
